@@ -81,6 +81,14 @@ func runScratchRule(c *Ctx, rule, typeKey, field string) {
 				truncBlocks[st.Block()] = true
 				return
 			}
+			if _, isMake := st.Val.(*ssa.MakeSlice); isMake {
+				return // (re)allocation of the scratch itself, e.g. at configuration time
+			}
+			if sl, isSl := st.Val.(*ssa.Slice); isSl {
+				if _, fresh := sl.X.(*ssa.Alloc); fresh {
+					return
+				}
+			}
 			grows = append(grows, st)
 		})
 		// the body of a range-over-func loop is a synthetic closure: its
